@@ -370,14 +370,30 @@ def gen_program(rng, opts=None):
                  "init": r.choice([None, None] + names_), "states": []}
             g.fsm_count += 1
             rd = list(inputs) + ctl + [j for j in drv if not has_comb.get(j)]
-            for nme in names_:
+            def fsm_body(ff):
                 body = []
                 if m["owns"]:
-                    body += gen_block(m, mi, 1, [3], f)
+                    body += gen_block(m, mi, 1, [3], ff)
                 if r.random() < 0.8:
-                    body.append(["if", [[g.numeric(rd, 1), [["next", f["id"], fd, r.choice(names_)]]]], None])
+                    body.append(["if", [[g.numeric(rd, 1), [["next", ff["id"], ff["domain"], r.choice(ff["names"])]]]], None])
                 if r.random() < 0.2:
-                    body.append(["next", f["id"], fd, r.choice(names_)])
+                    body.append(["next", ff["id"], ff["domain"], r.choice(ff["names"])])
+                return body
+            nested_done = False
+            for nme in names_:
+                body = fsm_body(f)
+                if not nested_done and r.random() < 0.15:
+                    # an FSM inside a State of another FSM; its state names overlap the outer ones on purpose: every
+                    # `m.next` belongs to the innermost enclosing FSM
+                    nested_done = True
+                    inner = {"id": g.fsm_count, "name": "inner", "domain": r.choice(domains)["name"],
+                             "names": list(names_[:r.randint(2, len(names_))]), "init": None, "states": []}
+                    g.fsm_count += 1
+                    if inner["domain"] not in m["stmt_domains"]:
+                        m["stmt_domains"].append(inner["domain"])
+                    for inm in inner["names"]:
+                        inner["states"].append([inm, fsm_body(inner)])
+                    body.insert(r.randint(0, len(body)), ["fsm", inner])
                 f["states"].append([nme, body])
             m["stmts"].insert(r.randint(0, len(m["stmts"])), ["fsm", f])
             if fd not in m["stmt_domains"]:
